@@ -58,7 +58,7 @@ func main() {
 		}
 	}()
 	files := map[string]*lib.File{}
-	for _, name := range []string{"target.go", "function.go", "sourceFile.go", "project.go", "project_index.go"} {
+	for _, name := range []string{"target.go", "function.go", "sourceFile.go", "project.go", "project_index.go", "project_builtins.go", "builtins.go"} {
 		f, err := lib.Parse(*repo, name)
 		if err != nil {
 			o.Fail("parse %s: %v", name, err)
@@ -134,6 +134,57 @@ func main() {
 	} else {
 		o.Fail("func RunOptions.apply not found")
 	}
+	// the REPL builtin run(label_or_target, always=, dry_run=, callback=): its body, its parameter names in order, and the
+	// order in which the generated wrapper (builtins.go) unpacks the keywords and passes them on — the two bools are
+	// adjacent and of the same type, so a swap type-checks
+	whole("builtinRun", "project_builtins.go", "Project.builtin_run")
+	var runParams, wrapperArgs, wrapperKeywords []string
+	if fd := files["project_builtins.go"].Func("Project.builtin_run"); fd != nil {
+		for _, f := range fd.Type.Params.List {
+			for _, n := range f.Names {
+				runParams = append(runParams, lib.LeanString(n.Name))
+			}
+		}
+	} else {
+		o.Fail("func Project.builtin_run not found")
+	}
+	if fd := files["builtins.go"].Func("Project.starlark_builtin_run"); fd != nil {
+		ast.Inspect(fd.Body, func(n ast.Node) bool {
+			c, ok := n.(*ast.CallExpr)
+			if !ok {
+				return true
+			}
+			if sel, ok := c.Fun.(*ast.SelectorExpr); ok {
+				switch sel.Sel.Name {
+				case "builtin_run":
+					for _, a := range c.Args {
+						if id, ok := a.(*ast.Ident); ok {
+							wrapperArgs = append(wrapperArgs, lib.LeanString(id.Name))
+						}
+					}
+				case "UnpackArgs":
+					// "keyword", &variable pairs after the first three arguments
+					for i := 3; i+1 < len(c.Args); i += 2 {
+						kw, _ := c.Args[i].(*ast.BasicLit)
+						un, _ := c.Args[i+1].(*ast.UnaryExpr)
+						if kw == nil || un == nil {
+							continue
+						}
+						k, _ := lib.Unquote(kw)
+						if id, ok := un.X.(*ast.Ident); ok {
+							wrapperKeywords = append(wrapperKeywords, lib.LeanString(k+"→"+id.Name))
+						}
+					}
+				}
+			}
+			return true
+		})
+	} else {
+		o.Fail("func Project.starlark_builtin_run not found")
+	}
+	o.Def("runParams", "List String", "["+strings.Join(runParams, ", ")+"]")
+	o.Def("runWrapperArgs", "List String", "["+strings.Join(wrapperArgs, ", ")+"]")
+	o.Def("runWrapperKeywords", "List String", "["+strings.Join(wrapperKeywords, ", ")+"]")
 	o.Def("applyNilAssigns", "List String", "["+strings.Join(nilAssigns, ", ")+"]")
 	o.Def("applySetAssigns", "List String", "["+strings.Join(setAssigns, ", ")+"]")
 	whole("saveIndex", "project_index.go", "Project.saveIndex")
